@@ -404,8 +404,8 @@ Print Assumptions glue5_projection.
 (* THE CONVERSE IS FALSE, and this is a disagreement between the two models: ActionAuto lets the next
    invocation start while the End of an invocation the engine timed out is still owed; the engine's dispatch
    (Auto.h_start: `if owes (s_late s) a then None`) refuses that Start.  The Go code does not wait for the
-   orphan (actions.go run(): `case <-ctx.Done(): return plugResp{timeout: true}`, then Backoff.Retry calls exec
-   again), so the order Start-before-late-End is possible in the code: ActionAuto is the faithful one, the
+   orphan (actions.go run(): on ctx.Done(), unless the answer has already arrived, `return plugResp{timeout:
+   true}`; then Backoff.Retry calls exec again), so the order Start-before-late-End is possible in the code: ActionAuto is the faithful one, the
    engine automaton is stricter than the code (never observed in > 11 600 traces: the orphan needs one wake-up,
    the retry a vault write and a timer).  Witness, retries = 1:
      W(Running,0) Start W(Running,1,false) Start End(Overrun) End(Ok) W(Running,2,true) W(Completed,2,true) *)
@@ -428,3 +428,69 @@ Proof.
         (conj (proj1 GlueExamples.ex5_retries_exhausted) (proj2 GlueExamples.ex5_retries_exhausted)))).
 Qed.
 Print Assumptions glue5_nonvacuous.
+
+(* ------------------------------------------------------------------ 5, lifted to the whole engine automaton
+   GlueAction.estep is a transcription made in coq/glue; what ties it to coq/engine is this: for every shape,
+   every trace the engine automaton accepts a prefix of (Accept.run sh init tr = Some s: all interleavings, all
+   epsilon-moves, stutters, late Ends) and every SEQUENCE action ASeq b q i of the shape, the events of that action
+   taken out of the trace in their order (GlueActionLift.proj_trace b q i tr: EvStart / EvEnd / EvWrite (OAct _))
+   are accepted by GlueAction.erun - hence, mapped, by ActionAuto.arun - with the action's retries.
+   Proof: AutoLemmas.product_run with the one-action dispatch as the monitor; relation = the action's position
+   in the automaton (before its sequence reaches it / the sub-automaton state SRun i a of its sequence in the
+   current block / after), its durable cell and its owed late Ends; needs the reachable-state invariant
+   GlueActionBinv.binv (no sequence in flight outside a block's sequences phase).
+   NOT covered: check actions (AChk ...): a check group runs repeatedly (continuous checks), so one action has
+   several runs, each from a fresh AIdle; the per-run cut of the projection is not formalised. *)
+From Coercion.Engine Require Shape PlanSM Accept.
+From Coercion.Glue Require GlueActionLift GlueActionLiftCor GlueActionBinv.
+
+Theorem glue5_engine_trace_action_refines :
+  forall (sh : Shape.shape) (tr : list Event.event) (s : PlanSM.st) (b q i r : nat),
+    Accept.run sh PlanSM.init tr = Some s -> Shape.retries_of sh (ASeq b q i) = Some r ->
+    exists es : GlueAction.est,
+      GlueAction.erun r (GlueActionLift.proj_trace b q i tr) = Some es /\
+      ActionAuto.arun r (map GlueAction.ev_of (GlueActionLift.proj_trace b q i tr)) = Some (GlueActionProofs.abs es).
+Proof. exact GlueActionLiftCor.engine_trace_action_refines. Qed.
+Print Assumptions glue5_engine_trace_action_refines.
+
+(* so c05_auto_trace applies to every sequence action inside every accepted engine trace (no shape_wf needed) *)
+Theorem glue5_engine_trace_action_c05 :
+  forall (sh : Shape.shape) (tr : list Event.event) (s : PlanSM.st) (b q i r : nat),
+    Accept.run sh PlanSM.init tr = Some s -> Shape.retries_of sh (ASeq b q i) = Some r ->
+    let ptr := GlueActionLift.proj_trace b q i tr in
+    GlueActionCor.estarts ptr <= r + 1 /\
+    (forall tr1 o tr2, ptr = tr1 ++ GlueAction.XEnd o :: tr2 -> Event.outcome_final o = true ->
+       GlueActionCor.estarts tr2 = 0) /\
+    (forall tr1 tr2, ptr = tr1 ++ GlueAction.XStart :: tr2 ->
+       (exists ok, In (GlueAction.XWrite Running 0 ok) tr1) /\
+       (GlueActionCor.estarts tr1 = 0 \/
+        exists ok, In (GlueAction.XWrite Running (GlueActionCor.estarts tr1) ok) tr1) /\
+       GlueActionCor.estarts tr1 <= r) /\
+    (forall tr1 st n ok tr2, ptr = tr1 ++ GlueAction.XWrite st n ok :: tr2 -> st = Completed \/ st = Failed ->
+       n = GlueActionCor.estarts tr1 /\ GlueActionCor.estarts tr2 = 0).
+Proof. exact GlueActionLiftCor.engine_trace_action_c05. Qed.
+Print Assumptions glue5_engine_trace_action_c05.
+
+(* the invariant of the engine automaton the lifting rests on, stated on its own: in every reachable state the
+   current block has all sequences idle before its sequences phase and none in flight after it *)
+Theorem glue5_engine_block_invariant :
+  forall (sh : Shape.shape) (tr : list Event.event) (s : PlanSM.st),
+    Accept.run sh PlanSM.init tr = Some s -> GlueActionBinv.binv (PlanSM.s_b s) = true.
+Proof.
+  intros sh tr s H.
+  exact (Coercion.Engine.AutoLemmas.run_inv GlueActionBinv.Pb sh
+           (Coercion.Engine.AutoLemmas.step_inv GlueActionBinv.Pb sh (GlueActionBinv.Pb_eps sh) (GlueActionBinv.Pb_handle sh))
+           tr PlanSM.init s GlueActionBinv.Pb_init H).
+Qed.
+Print Assumptions glue5_engine_block_invariant.
+
+(* instance: the retried action ASeq 1 1 0 of coq/engine's real 149-event trace *)
+Theorem glue5_lift_nonvacuous :
+  Shape.retries_of Coercion.Engine.AutoExamples.ex_shape (ASeq 1 1 0) = Some 1 /\
+  length (GlueActionLift.proj_trace 1 1 0 Coercion.Engine.AutoExamples.ex_trace) = 10 /\
+  ActionAuto.accepted 1 (map GlueAction.ev_of (GlueActionLift.proj_trace 1 1 0 Coercion.Engine.AutoExamples.ex_trace)) = true.
+Proof.
+  destruct GlueExamples.ex5_real_trace_action as (H1 & H2 & _ & H4).
+  split; [exact H1|]. split; [rewrite H2; reflexivity|exact H4].
+Qed.
+Print Assumptions glue5_lift_nonvacuous.
